@@ -197,7 +197,10 @@ TrDeleteFile == IsEv("DeleteFile") /\ ev.ok /\ RollbackDeleteData(A, ev.f)
 TrRet ==
   /\ IsEv("Ret")
   /\ IF Role[A] = "reader"
-     THEN RReturn(A) /\ (ev.res = "ok" => ToSet(ev.files) = loc[A].got) /\ (ev.res = "ok" <=> loc[A].err = "none")
+     THEN /\ RReturn(A)
+          /\ ev.res = "ok" <=> loc[A].err = "none"
+          /\ ev.res = "ok" => IF WantsData(A) THEN ToSet(ev.files) = loc[A].got     \* rows returned = files the model read
+                                               ELSE ev.count = Cardinality(loc[A].rfiles)
      ELSE IF ev.res = "ok" THEN ReturnOk(A)
      ELSE IF ev.res = "false" THEN Stutter      \* delete_snapshot of an absent snapshot: DsResolve already returned
      ELSE ReturnErr(A) /\ (ev.res = "cme" <=> loc[A].err = "cme")
